@@ -393,6 +393,20 @@ func genC13Case(r *Rng) c13Input {
 		in.Params.Enabled = r.Chance(2, 3)
 		in.Period, in.Skipped, e = u64(per), u64(sk), sk+c+1
 	}
+	if r.Chance(1, 7) && max > 0 {
+		// genesis counters AHEAD of the epoch number (epp*period + skipped > e): the period has to wait
+		per := uint64(r.Range(1, int(max)))
+		sk := uint64(r.Intn(12))
+		lead := uint64(r.Range(1, int(epp*per)+3))
+		if lead >= epp*per+sk {
+			lead = epp*per + sk - 1
+		}
+		in.Params.Started, in.Params.Enabled = true, true
+		in.Period, in.Skipped, e = u64(per), u64(sk), epp*per+sk-lead
+		if e == 0 {
+			e = 1
+		}
+	}
 	if r.Chance(1, 4) {
 		in.Mode = "clock"
 	}
@@ -516,6 +530,13 @@ func TestC13(t *testing.T) {
 	}
 	run(c13Input{Mode: "clock", Params: c13Params{Enabled: true, Started: true, Factors: defaultFactors, Dist: c13Dists[0], EPP: 30, PPY: 12, Max: 96},
 		Period: u64(95), Skipped: u64(0), Ops: ops})
+	// counters ahead of the epoch number: epp 3, period 2, skipped 5, day epochs 4..19 — the period waits until epoch 14
+	ops = nil
+	for e := uint64(4); e < 20; e++ {
+		ops = append(ops, c13Op{Op: "end", Day: true, E: e})
+	}
+	run(c13Input{Mode: "direct", Params: c13Params{Enabled: true, Started: true, Factors: c13Polys[2], Dist: c13Dists[0], EPP: 3, PPY: 12, Max: 4},
+		Period: u64(2), Skipped: u64(5), Ops: ops})
 	rng := NewRng(cfg.Seed)
 	for i := 0; i < cfg.N; i++ {
 		run(genC13Case(rng.Fork()))
